@@ -143,7 +143,8 @@ def run(ctx):
             kid = h.children(h.root)[-1]
             probe_handle(ctx, kid, n, "children()", False)
         return
-    feats = {"cond": True, "loop": True, "cfg": ch.coin(3, 4, "f-cfg"), "calls": True, "poly": ch.coin(1, 2, "f-poly"), "meta": False, "insert": ch.coin(1, 2, "f-insert")}
+    feats = {"cond": True, "loop": True, "cfg": ch.coin(3, 4, "f-cfg"), "calls": True, "poly": ch.coin(1, 2, "f-poly"), "meta": False, "insert": ch.coin(1, 2, "f-insert"),
+             "stray_links": ch.coin(1, 2, "f-stray-links")}
     try:
         sim = BuilderSim(ctx, features=feats, max_steps=20 + ch.draw(40, "max-steps"))
         ctx.profile = {"leg": "builders", "root": sim.root_kind}
@@ -173,7 +174,7 @@ def scenario_leg(ctx, exhaustive):
     from hugr.build.dfg import Dfg
 
     ch = ctx.ch
-    which = ch.draw(3, "scenario")
+    which = ch.draw(6, "scenario")
     B, Q = tys.Bool, tys.Qubit
     ctx.profile = {"leg": "scenario", "scenario": which}
     if which == 0:
@@ -214,6 +215,99 @@ def scenario_leg(ctx, exhaustive):
         probe_handle(ctx, cond.parent_node, n_out, "conditional-after-refused-case", exhaustive)
         node = next(c for c in d.hugr.children(d.parent_node) if c.idx == cond.parent_node.idx)
         probe_handle(ctx, node, n_out, "children()-after-refused-case", False)
+        return
+    if which == 3:
+        # (d) If/Else share one Conditional: its handle learns the count when the first branch sets its outputs.  A
+        # branch builder asked for the conditional's node before that moment must answer correctly afterwards too.
+        n_out = ch.draw(4, "n-out")
+        d = Dfg(B)
+        if_ = d.add_if(d.inputs()[0])
+        early_if = if_.conditional_node
+        ctx.ev(0, "if_.conditional_node (before any outputs)", None, early_if._num_out_ports)
+        ctx.probe("conditional_node_read_before_outputs_set")
+        first_else = ch.coin(1, 2, "else-opened-before-if-outputs")
+        if_.set_outputs(*[if_.load(val.TRUE) for _ in range(n_out)])
+        if first_else:
+            probe_handle(ctx, if_.conditional_node, n_out, "if.conditional_node-after-if-outputs", exhaustive)
+        else_ = if_.add_else()
+        early_else = else_.conditional_node
+        else_.set_outputs(*[else_.load(val.FALSE) for _ in range(n_out)])
+        ctx.steps += 3
+        ctx.ev(0, "if/else outputs set", n_out)
+        probe_handle(ctx, if_.conditional_node, n_out, "if.conditional_node-read-early-and-late", exhaustive)
+        probe_handle(ctx, else_.conditional_node, n_out, "else.conditional_node-read-early-and-late", exhaustive)
+        probe_handle(ctx, early_else, n_out, "else.conditional_node-after-if-outputs", False)
+        return
+    if which == 4:
+        # (e) a refused branch_exit (successor index out of range, or a source block without outputs yet), caught by
+        # the caller, then the valid one: the CFG's handle must still learn its count
+        n_out = ch.draw(4, "n-out")
+        nested = ch.coin(1, 2, "nested-cfg")
+        from hugr.build.cfg import Cfg
+        d = Dfg(B)
+        cfg = d.add_cfg(*[d.inputs()[0]] * n_out) if nested else Cfg(*[B] * n_out)
+        entry = cfg.add_entry()
+        how = ch.draw(2, "refusal")
+        try:
+            if how == 0:
+                cfg.branch_exit(entry.parent_node.out(2 + ch.draw(2, "bad-succ")))
+                src = None
+            else:
+                cfg.branch_exit(entry.parent_node.out(0))  # the block has no outputs yet
+            got = "returned"
+        except Exception as e:  # noqa: BLE001
+            got = type(e).__name__
+        ctx.ev(0, "branch_exit (refused)", how, got)
+        ctx.fault("refused_branch_exit")
+        if got == "returned":
+            ctx.discard = "refused-request-was-accepted"
+            return
+        if ch.coin(1, 2, "delete-stray-link"):
+            for a, b_ in list(cfg.hugr.links()):
+                if b_.node == cfg.exit and a.node == entry.parent_node:
+                    cfg.hugr.delete_link(a, b_)
+        entry.set_single_succ_outputs(*entry.inputs())
+        cfg.branch_exit(entry[0])
+        ctx.steps += 3
+        ctx.probe("cfg_closed_after_refused_branch_exit")
+        probe_handle(ctx, cfg.parent_node, n_out, "cfg-closed-after-refused-branch_exit", exhaustive)
+        if nested:
+            node = next(c for c in d.hugr.children(d.parent_node) if c.idx == cfg.parent_node.idx)
+            probe_handle(ctx, node, n_out, "children()-after-refused-branch_exit", False)
+        return
+    if which == 5:
+        # (f) a link into the Output node beyond the outputs that will be set (added by mistake and deleted again, or
+        # left by a refused set_outputs whose last argument is not a dataflow wire), then the outputs are set
+        n_out = ch.draw(4, "n-out")
+        d = Dfg(B)
+        inner = d.add_nested(d.inputs()[0])
+        x = inner.inputs()[0]
+        if ch.coin(1, 2, "via-refused-set_outputs"):
+            c = inner.add_const(val.TRUE)
+            try:
+                inner.set_outputs(*[x] * (n_out + 1 + ch.draw(2, "extra")), c)
+                got = "returned"
+            except Exception as e:  # noqa: BLE001
+                got = type(e).__name__
+            ctx.ev(0, "set_outputs(..., <Const node>) refused", None, got)
+            ctx.fault("refused_set_outputs")
+            if got == "returned":
+                ctx.discard = "refused-request-was-accepted"
+                return
+            for a, b_ in list(inner.hugr.links()):
+                if b_.node == inner.output_node:
+                    inner.hugr.delete_link(a, b_)
+        else:
+            off = n_out + ch.draw(3, "extra")
+            inner.hugr.add_link(x.out_port(), inner.output_node.inp(off))
+            inner.hugr.delete_link(x.out_port(), inner.output_node.inp(off))
+            ctx.fault("stray_link_added_and_deleted")
+        inner.set_outputs(*[x] * n_out)
+        ctx.steps += 3
+        ctx.probe("outputs_set_after_stray_link_into_output_node")
+        probe_handle(ctx, inner.parent_node, n_out, "dfg-closed-after-stray-output-link", exhaustive)
+        node = next(c for c in d.hugr.children(d.parent_node) if c.idx == inner.parent_node.idx)
+        probe_handle(ctx, node, n_out, "children()-after-stray-output-link", False)
         return
     # (c) last output linked early through the graph API
     kind = ch.pick(["dfg", "tailloop", "conditional", "cfg"], "container")
